@@ -22,7 +22,7 @@ META = {
     "engine": "A (configurations x seeds x hash seeds, seeded mode; tiny configuration with every random answer owned)",
     "rule": "a case = (solver, target, setting, seed); run twice in-process, once after another run, and once per hash seed in a fresh interpreter; "
             "non-trivial = the hall of fame holds >= 2 different circuits or the best score improved during the run; distinct = distinct cases",
-    "bounds": {"quick": "solvers {Evolutionary, Hybrid} x targets {linear3, star3, linear4, cycle4} x 8 settings x seeds 0..3 x hash seeds {0,1}; tiny owned configuration (1 member, 2 generations, "
+    "bounds": {"quick": "solvers {Evolutionary, Hybrid} x targets {linear3, star3, linear4, cycle4} x 10 settings x seeds 0..3 x hash seeds {0,1}; tiny owned configuration (1 member, 2 generations, "
                         "two Cliffords) with <=2 non-default random answers (cap 1200 executions per solver/target)",
                "thorough": "16 settings, seeds 0..15, hash seeds {0,1,2,3}"},
     "assumptions": ["compilers run with measurement_determinism=1; the stabilizer back end's emitter removal at scoring time is random, so a stored score must equal one of the possible re-evaluations",
@@ -37,6 +37,8 @@ def settings(tier):
     out = []
     for n_hof, sel, adapt in itertools.product((1, 3), (False, True), (False, True)):
         out.append({"n_pop": 3, "n_stop": 3, "n_hof": n_hof, "selection_active": sel, "use_adapt_probability": adapt, "tournament_k": 2})
+    out.append({"n_pop": 3, "n_stop": 3, "n_hof": 3, "selection_active": True, "use_adapt_probability": False, "tournament_k": 0})
+    out.append({"n_pop": 4, "n_stop": 3, "n_hof": 2, "selection_active": True, "use_adapt_probability": True, "tournament_k": 1})
     if tier == "thorough":
         for n_hof, sel, adapt in itertools.product((2, 4), (False, True), (False, True)):
             out.append({"n_pop": 4, "n_stop": 5, "n_hof": n_hof, "selection_active": sel, "use_adapt_probability": adapt, "tournament_k": 0 if adapt else 3})
